@@ -1,4 +1,4 @@
-From Urwid Require Import AttrFlow.
+From Urwid Require Import AttrFlowE2E.
 From Coq Require Extraction ExtrOcamlBasic.
 Extraction Language OCaml.
 Extraction "model.ml" run_case.
